@@ -61,6 +61,9 @@ def grammar_cases(rng: random.Random) -> List[Dict[str, Any]]:
         where = rng.randrange(3)
         prog = pre + (f'{bad};1\n' if where == 0 else f';1{bad}+2\n' if where == 1 else f';1 {bad}\n')
         add('lexing', prog, [line_of(pre)])
+    # literals in every notation the lexer's patterns accept (upper-case prefixes included): valid - and never the catch-all
+    for good in ("'\\X41'", '"\\X41\\x42"', "'\\x7f'", '0X1f', '0B101', '"a\\tb\\0"', "'\\\\'", '"\\X00\\XfF"', "'\\''", '"\\""'):
+        add('valid-literals', pre + f';{good}\n', [])
     # syntax
     for bad in (';;', 'def m {', '}', 'a b c :', 'wflip 1', 'wflip 1,', 'rep(3) m', 'rep(3, i)', 'ns {\n}', 'def a.b {\n}',
                 '1 < 2 < 3;', 'pad', '(1;', '1);', ';1 +', '; * 2', 'x = ', '= 5', 'def m a a {\n;\n}', f'{lbl}: {lbl}2: ;',
